@@ -43,6 +43,10 @@ CLIENT_DISCONNECT = engineio.Client.reason.CLIENT_DISCONNECT
 _cur_ev = contextvars.ContextVar('verif_cur_ev', default=None)
 
 
+class CallbackError(RuntimeError):
+    """what a scripted application callback raises after it has recorded itself"""
+
+
 class Stuck(RuntimeError):
     """The private loop has nothing left to run and no timer to advance to."""
 
@@ -240,6 +244,8 @@ class ClientWorld:
         self.tagged = None            # during a concurrent burst: [(message index, entry)]
         self.pending = []             # futures the suspended handlers of a burst wait on
         self.seq = 0
+        self.reenter = None           # frame to deliver again from inside the next callback that runs
+        self.reentered = False
         self.n_suspended = 0          # handlers / callbacks that were really suspended inside a burst
         VClient, VAsyncClient = _mk_client_classes()
         opts.setdefault('reconnection', False)
@@ -341,15 +347,26 @@ class ClientWorld:
                 setattr(obj, 'on_' + m['ev'], f)
             self.sio.register_namespace(obj)
 
-    def callback(self, tok, coro=False, susp=False):
+    def callback(self, tok, coro=False, susp=False, raises=False):
         world = self
         if coro and self.is_async:
             async def cb(*args):
                 world._rec(['cb', tok, list(args)])
                 await world._pause(susp)
+                if raises:
+                    raise CallbackError(tok)
         else:
             def cb(*args):
                 world._rec(['cb', tok, list(args)])
+                fr = world.reenter
+                if fr is not None and not world.is_async:
+                    # re-entrant delivery: the same frame arrives again while this callback runs
+                    world.reenter = None
+                    world.reentered = True
+                    if world.eio.state == 'connected':
+                        world.eio._trigger_event('message', fr, run_async=False)
+                if raises:
+                    raise CallbackError(tok)
         return cb
 
     def auth(self, value, callable_=False, coro=False):
@@ -466,6 +483,22 @@ class ClientWorld:
             self.loop.run_until_complete(self._aplay(r))
         else:
             self._play(r)
+
+    def reentrant(self, e):
+        """An ACK frame and its duplicate.  Threaded client: the duplicate is delivered from INSIDE the
+        first callback the frame causes (if it causes none: right after it); asyncio: one after the
+        other.  -> [(trace, snapshot)] * 2"""
+        self.script = None
+        self.reentered = False
+        self.reenter = e[1] if not self.is_async else None
+        self.event(e)
+        t1, s1 = self.take(), self.snapshot()
+        if self.reentered:
+            self.reenter = None
+            return [(t1, s1), ([['>'], ['<']], self.snapshot())]
+        self.reenter = None
+        self.event(e)
+        return [(t1, s1), (self.take(), self.snapshot())]
 
     def burst(self, events):
         """Several engine.io messages the way engine.io's asyncio client dispatches them: one task per
